@@ -97,6 +97,9 @@ def parseTx (t : List String) : Option Tx :=
         else if typ == "fail" then some .receiptFailure else if typ == "rb" then some .receiptRollback
         else typ.toNat?.map IType.other
       let pk := if pk == "ok" then some ProofKind.ok else if pk == "none" then some .none else if pk == "bad" then some .bad else if pk == "false" then some .plainFalse else none
+      -- a destination whose chain id equals its BitXHub id addresses a hub-level (inter-broker) service: outside the model
+      let hubSvc := match parseSvc to with | some d => d.chain == d.bxh | none => false
+      if hubSvc then some (.bvm signer "?ibtp" "?" []) else
       match typ, pk with
       | some typ, some pk => some (.ibtp signer { frm := parseSvc f, to := parseSvc to, index := idx, typ := typ, timeout := tmo, group := grp } pk)
       | _, _ => some (.bvm signer "?ibtp" "?" [])
